@@ -836,6 +836,32 @@ Proof.
   - destruct HI' as (_ & _ & _ & Hout & _). auto.
 Qed.
 
+Theorem pop_front_Inv ts h :
+  Inv ts h -> hq h <> [] ->
+  exists h' t, pop_front ts h = (h', Some t) /\ front h = Some t /\ Inv ts h' /\
+               Permutation (hq h) (t :: hq h') /\ hidx h' t = (-1)%Z.
+Proof.
+  intros HI Hne. destruct (pop_front_correct ts h HI Hne) as (h' & t & H1 & H2 & _ & H3 & H4 & H5).
+  exists h', t. splits; auto.
+Qed.
+
+Theorem pop_front_min ts h h' t :
+  Inv ts h -> pop_front ts h = (h', Some t) ->
+  In t (hq h) /\ forall u, In u (hq h) -> (ts t <= ts u)%Z.
+Proof.
+  intros HI Hpf.
+  assert (Hne : hq h <> []).
+  { intros E. unfold pop_front in Hpf. rewrite E in Hpf. discriminate. }
+  destruct (pop_front_correct ts h HI Hne) as (h'' & t' & H1 & _ & H2 & _ & H3 & _).
+  rewrite H1 in Hpf. inversion Hpf; subst. split; auto.
+  apply (Permutation_in _ (Permutation_sym H3)). left; auto.
+Qed.
+
+Example pop_front_ex :
+  Inv ex_ts ex_h /\ hq ex_h <> [] /\
+  (let (h', r) := pop_front ex_ts ex_h in (hq h', r)) = ([1; 0; 2], Some 3).
+Proof. split; [exact ex_Inv|]. split; [discriminate | vm_compute; reflexivity]. Qed.
+
 (* ------------------------------------------------------------------------------------ *)
 (** * pop *)
 
@@ -873,6 +899,33 @@ Qed.
 Theorem pop_absent ts h t : Inv ts h -> ~ In t (hq h) -> pop ts h t = (h, (-1)%Z).
 Proof.
   intros (_ & _ & _ & Hout & _) Hnin. unfold pop. rewrite (Hout t Hnin). reflexivity.
+Qed.
+
+Theorem pop_Inv ts h t :
+  Inv ts h -> In t (hq h) -> exists h', pop ts h t = (h', 0%Z) /\ Inv ts h'.
+Proof.
+  intros HI Hin. destruct (pop_correct ts h t HI Hin) as (h' & H1 & H2 & _). eauto.
+Qed.
+
+Theorem pop_removes_exactly ts h t :
+  Inv ts h ->
+  (In t (hq h) ->
+   exists h', pop ts h t = (h', 0%Z) /\ Inv ts h' /\ Permutation (hq h) (t :: hq h') /\
+              hidx h' t = (-1)%Z) /\
+  (~ In t (hq h) -> pop ts h t = (h, (-1)%Z)).
+Proof.
+  intros HI. split; [apply pop_correct; auto | apply pop_absent; auto].
+Qed.
+
+(* removing thread 0 (position 1, middle of the array, deadline tied with thread 1); thread 9
+   is not queued *)
+Example pop_ex :
+  Inv ex_ts ex_h /\ In 0 (hq ex_h) /\ ~ In 9 (hq ex_h) /\
+  (let (h', r) := pop ex_ts ex_h 0 in (hq h', r)) = ([3; 1; 2], 0%Z) /\
+  snd (pop ex_ts ex_h 9) = (-1)%Z.
+Proof.
+  split; [exact ex_Inv|]. split; [simpl; tauto|]. split; [simpl; lia|].
+  split; vm_compute; reflexivity.
 Qed.
 
 (* ------------------------------------------------------------------------------------ *)
@@ -965,4 +1018,20 @@ Theorem hops_pop_front_min : forall l s rs s' v,
 Proof.
   intros l s rs s' v Hrun Hst. apply hop_step_pop_front; auto.
   exact (hops_run_Inv l _ _ _ _ HSInv_init Hrun).
+Qed.
+
+(* a concrete run: 5 pushes (ties and 2^64-1), a pop from the middle, two pop_fronts *)
+Definition ex_ops : list hop :=
+  [HPush 0 5%Z; HPush 1 5%Z; HPush 2 18446744073709551615%Z; HPush 3 3%Z; HPush 4 5%Z;
+   HPop 0; HPopFront; HPush 3 7%Z; HPopFront].
+
+Example hops_Inv_ex :
+  exists s rs, hops_run hstate_init ex_ops [] = (s, rs) /\
+               hq (hs_heap s) = [4; 3; 2] /\ rs = [0; 0; 0; 0; 0; 0; 3; 0; 1]%Z /\
+               hop_step s HPopFront = (fst (hop_step s HPopFront), 4%Z).
+Proof.
+  exists (fst (hops_run hstate_init ex_ops [])), (snd (hops_run hstate_init ex_ops [])).
+  split; [apply surjective_pairing|]. split; [vm_compute; reflexivity|].
+  split; [vm_compute; reflexivity|].
+  rewrite (surjective_pairing (hop_step _ _)) at 1. f_equal.
 Qed.
